@@ -25,8 +25,8 @@ def pipeline(tier, seed):
     progs_path = os.path.join(tdir, "routing_progs_%s.ndjson" % tier)
     if os.path.exists(progs_path):
         os.unlink(progs_path)
-    model = tlc_model("MC_Routing", CFG[tier], env={"VERIF_OUT": progs_path}, workers=10,
-                      timeout=3000, expect=['"CORPUS"'])
+    model = tlc_model("MC_Routing", CFG[tier], env={"VERIF_OUT": progs_path}, workers=8,
+                      timeout=3000, expect=['"CORPUS"'], coverage=(tier == "thorough"))
     for a in ("Expand", "Next"):
         if a in model["never_taken"]:
             raise ToolError("vacuous routing model: action %s never taken" % a)
@@ -88,7 +88,8 @@ def validate(prop, p, report, focus=None):
     env = {"VERIF_PROGS": p["progs_path"], "VERIF_FOCUS": focus or prop}
     v = tlc_trace("Trace_Routing", "Trace_Routing.cfg", p["trace"], env=env, timeout=3000)
     events = None
-    for rej in v["rejections"]:
+    seen_deliveries = set()
+    for rej in sorted(v["rejections"], key=lambda r: r["index"]):
         if events is None:
             events = read_ndjson(p["trace"])
         ev = rej["event"]
@@ -101,7 +102,14 @@ def validate(prop, p, report, focus=None):
         elif not mine:
             # blocked by a clause of another property (reported by that property's check)
             continue
-        check = mine[-1]
+        # one delivery (the document through the entry point, then through the multitest impl) is one case:
+        # report the first clause that fails in it
+        if ctx.get("ev") == "Deliver":
+            d = (ctx.get("prog"), ctx.get("seq"))
+            if d in seen_deliveries:
+                continue
+            seen_deliveries.add(d)
+        check = mine[0]
         progid = ev.get("prog") or ctx.get("prog") or "?"
         what = "%s: clause `%s` fails at event %d (%s) of program %s; delivered: ep=%s shape=%s key=%s body=%s via=%s" % (
             prop, check, rej["index"], ev.get("ev"), progid, ctx.get("ep"), ctx.get("shape"), ctx.get("key"), ctx.get("body"), ctx.get("via"))
